@@ -137,7 +137,7 @@ def _items(v):
     return [x for x in v.split(",") if x] if v else []
 
 
-def relevant(prop, fields, a, b):
+def relevant(prop, fields, a, b, opline=""):
     """Model and implementation differ in `fields` of one line (both started from the same state — the
     driver re-synchronises). Is the difference one that `prop`'s theorems speak about, or merely the echo
     of a difference that belongs to another property (other contents => other total, other order, fewer
@@ -174,6 +174,25 @@ def relevant(prop, fields, a, b):
             # same contents but another total / other sizes
             ob = _items(b.get("ord"))
             return ob is not None and [x.split(":")[:5] for x in oa] == [x.split(":")[:5] for x in ob] and bool(set(fields) & {"cur", "rs", "ord"})
+        if prop == "C06":
+            # exactly-once: with the same contents afterwards, other drop events or another owned return value;
+            # when the contents differ, *which* objects left is the business of C03/C04/C11/C15 and the token
+            # table (the C06 monitor) speaks about the implementation directly
+            oa, ob = _items(a.get("ord")), _items(b.get("ord"))
+            if oa is None or ob is None:
+                return True
+            return sorted(":".join(x.split(":")[:5]) for x in oa) == sorted(":".join(x.split(":")[:5]) for x in ob)
+        if prop in ("C07", "C16", "C17") and not (set(fields) & {"WALKERR", "st", "lb"}):
+            # structure: the hook's verdict, the status, Level B — or the implementation's own traversals and len()
+            # disagreeing with each other. Other contents in a coherent structure are not a structural matter.
+            oa, ra = _items(a.get("ord")), _items(a.get("rord"))
+            if oa is None or ra is None:
+                return prop != "C07"
+            incoherent = int(a.get("len", "0")) != len(oa) or ra != [x.split(":")[0] for x in reversed(oa)]
+            if prop == "C07":
+                return incoherent
+            # C16 / C17 also own everything the scenario line itself (the panic / the forgotten iterator) shows
+            return incoherent or ("!" in opline) or (" it " in opline and opline.split(" | ")[0].rstrip().endswith(" f"))
         if prop == "C01":
             if "max" in fields:
                 return True
@@ -458,8 +477,9 @@ def run_shard(ctx, idx, family, seqs, extra, shard, nshards, careful=False, tag=
     rc, out = run(cmd, timeout=30 if careful else SHARD_TIMEOUT.get(ctx.tier, 90))
     res = {"prefix": prefix, "family": family, "rc": rc, "out": out[-2000:], "cmd": " ".join(cmd), "variant": variant}
     if rc != 0:
-        # a crash or a hang of the real code: no point in running the remaining shards
-        ctx.abort = True
+        # a hang of the real code: every further shard that runs into it costs the watchdog time again
+        if rc == TIMEOUT_RC:
+            ctx.abort = True
         return res
     # the driver also reads the observations: after a line on which model and implementation differ
     # (reported for that line) it continues from the implementation's observed state, so that every
@@ -563,7 +583,7 @@ def compare(ctx, res):
             props.add("C17")
         if panic_seq and structural & set(fields):
             props.add("C16")
-        props = {q for q in props if q == "*" or relevant(q, fields, a, b)}
+        props = {q for q in props if q == "*" or relevant(q, fields, a, b, ops[i])}
         # light lines cannot be re-synchronised (they show no contents): after one of them diverged, the
         # totals of the following light lines only repeat that divergence
         if not is_full:
@@ -919,6 +939,7 @@ def main(root, argv):
     # crashes / hangs
     crash_mon = []
     hang_violation = None
+    cut_short = 0
     for r in results:
         if r["rc"] != 0:
             # re-run carefully (every line flushed before it is executed) to find the line
@@ -940,14 +961,24 @@ def main(root, argv):
             last = [l for l in mon if l.startswith("RUN ")]
             start = seq_of(ops, len(ops) - 1) if ops else 0
             lines = [strip_hints(l) for l in ops[start:]]
-            if last:
+            if last and (not lines or lines[-1] != last[-1].split(" ", 2)[2]):
                 lines.append(last[-1].split(" ", 2)[2])
             header = lines[0] if lines and lines[0].startswith("# seq") else "# seq 1 hasher=mix"
             body = [l for l in lines if not l.startswith("#")]
+            # whose business is it? An operation that does not return is C01's (every operation returns; the
+            # eviction loop terminates), a process that dies is a memory-safety matter (C07, C06) — and in
+            # both cases the contract of the operation that was running. For every other property the shard
+            # is cut short (noted in the evidence), which is not a violation of *that* property.
+            running = body[-1] if body else ""
+            owners = ({"C01"} if hang else {"C07", "C06"}) | line_props(running, "ret") | line_props(running, "st")
             what = ("an operation of the real code did not return within the watchdog time (the last line of the sequence is the call that hangs)"
                     if hang else "the harness process died (signal/abort) while running this sequence against the real code")
-            hang_violation = ("hang" if hang else "crash", header, body, what + ":\n" + r["out"][-1500:])
-            break
+            if prop in owners:
+                hang_violation = ("hang" if hang else "crash", header, body, what + ":\n" + r["out"][-1500:])
+                break
+            ctx.notes.append(f"shard {r['cmd'].split('--family ')[1].split(' ')[0]} was cut short: {what.split(' (')[0]} in `{running}` "
+                             f"(rc {r['rc']}); that is reported by the checks of {sorted(owners)}, not by this one")
+            cut_short += 1
     good = [r for r in results if r["rc"] == 0]
     # monitors
     good = [r for r in good if not r.get("skipped")]
@@ -1059,6 +1090,7 @@ def main(root, argv):
         "theorems": thm_samples,
         "input_distribution": {k: tot[k] for k in ("ops", "rets", "hashers", "evictions_per_op", "reallocs", "tombstone_states", "max_len", "panics_fired")},
         "hooks": ctx.hooks,
+        "shards_cut_short_by_hang_or_crash": cut_short,
         "notes": ctx.notes,
         "exhaustive": False,
     }
